@@ -8,9 +8,20 @@ header: retry [max=N] [dyn=1] [retry=<bitmask of retryable kinds>] [bo=fixed:D|e
         max_attempts_fn (the request's ma=, else <n>), bf<D> / be<D> / bt<D>/<D>/… = fixed_backoff / exponential_backoff /
         backoff(table), p<mask> = retry_on, ubucket:… / uaimd:… = budget(a new one); `chain=-` = no setter. Every setting
         is the one set LAST (max_attempts and max_attempts_fn set the same thing, as do the three back-off setters).
-ops:    arrive <c> [ma=N] inner=<lat>:<out>,…   poll/drop/adv/settle   probe balance|limit
-        manual deposit|withdraw
+        interval-function objects handed to .backoff(..), every public constructor (bo= kind / chain item):
+          ifixed:<D> / bi<D>                     FixedInterval::new(D)
+          iexp:<D>_<p>_<q>_<cap> / bx…           ExponentialBackoff::new(D).multiplier(p/q).max_interval(cap)
+          rand:<D>_<pct>_<p>_<q>_<cap> / br…     ExponentialRandomBackoff::new(D, pct/100).multiplier(p/q).max_interval(cap)
+        (a field `-` or absent = setter not called); their answers are observed: `#bo <retry index> <ns>` meta lines
+        budgets through RetryBudgetBuilder: bucket:<max>:<initial>[:<tps>], aimdb:<min>:<max>:<dep>:<wd>:<q> (`-` = the
+        builder's default: 100 / =max / 10 / 1000 / 1 / 1 / factor 0.5)
+        chain item n<name> = .name(..); via=exponential_backoff|aggressive|conservative: the chain starts from that preset
+        ready=<script of r/p/e>: the inner service's answers to the readiness polls between attempts; rec=<ms>: an instance
+        answers Pending until <ms> after the call it last served
+ops:    arrive <c> [ma=N] [svc=<k>] [lclone=1] [h=same|clone] inner=<lat>:<out>,…   poll/drop/adv/settle
+        probe balance|limit   manual deposit|withdraw
 """
+import re
 from gen.util import kvs, tparse
 
 
@@ -58,6 +69,11 @@ def gen(rng, tier):
     bo_us = []        # the finite configured delays, in µs (advances are biased to them)
     if r < 0.06:
         bo_us = [100000, 200000, 400000]
+    elif rng.random() < 0.30:
+        # an interval-function object built through its own constructor and setters (observed: jittered / float-computed)
+        word = _gen_interval(rng, us)
+        words.append("bo=" + word)
+        bo_us = _interval_points(word, us)
     elif r < 0.40:
         if us:
             d = val([0, 1, 500, 900, 999, 1000, 1001, 1500, 2250, 2999, 10500, rng.randint(1, 6000)])
@@ -103,15 +119,35 @@ def gen(rng, tier):
         mxb = mn + rng.choice([0, 1, 2, 3, 5])
         budget = "aimd:%d:%d:%d:%d:%d" % (mn, mxb, rng.choice([0, 1, 1, 2, 3]), rng.choice([0, 1, 1, 2, 3]),
                                          rng.choice([0, 1, 2, 2, 3, 4]))
+    if budget and rng.random() < 0.35:
+        budget = _via_budget_builder(rng, budget)
     if budget:
         words.append("budget=" + budget)
     if use_chain:
         chain = _gen_chain(rng, words[1:], us)
         words = ["retry", "chain=" + chain] + (["unit=us"] if us else [])
-        eff = parse_chain(chain)
+        if rng.random() < 0.12:
+            words.append("via=" + rng.choice(list(PRESETS)))
+        eff = parse_chain(chain, kvs(" ".join(words)).get("via"))
         dyn = eff["dyn"]
         budget = eff["budget"]
-        bo_vals = sorted(set(bo_vals + _bo_vals(eff["bo"], us)))
+        bo_vals = sorted(set(bo_vals + _bo_vals(eff["bo"], us and not eff.get("bo_ms"))))
+    elif rng.random() < 0.05:
+        words.append("name=" + rng.choice(["r1", "payments", "x"]))
+    # the inner service's readiness between attempts: scripted answers (at most 6 pending ones: the poller re-polls a
+    # self-waking future 8 times), and / or a recovery time of the instance after every call
+    if rng.random() < 0.14:
+        if rng.random() < 0.75:
+            n = rng.randint(1, 6)
+            sc = [rng.choice("rrrrpee") for _ in range(n)]
+            while sc.count("p") > 6:
+                sc[sc.index("p")] = "r"
+            words.append("ready=" + "".join(sc))
+        if rng.random() < 0.45 or not any(w.startswith("ready=") for w in words):
+            words.append("rec=%d" % rng.choice([1, 2, 3, 5, 8, rng.randint(1, 12)]))
+    rec = int(kvs(" ".join(words)).get("rec", "0"))
+    if rec:
+        bo_vals = sorted(set(bo_vals + [rec, max(0, rec - 1)]))
     header = " ".join(words)
 
     ncall = rng.choice([1, 1, 2, 2, 3, 3, 4, 4, 5, 6])
@@ -129,6 +165,13 @@ def gen(rng, tier):
             elif not dyn and rng.random() < 0.1:
                 kw = " ma=%d" % rng.randint(0, 6)      # ignored by a fixed max_attempts
             n = rng.choice([0, 1, 2, 3, 4, 5, 6, 8])
+            # which service of the one layer value / which handle the request is made through
+            if rng.random() < 0.25:
+                kw += " svc=%d" % rng.choice([0, 1, 1, 2])
+                if rng.random() < 0.3:
+                    kw += " lclone=1"
+            if rng.random() < 0.2:
+                kw += " h=" + rng.choice(["same", "same", "clone"])
             ops.append("arrive %d%s inner=%s" % (c, kw, _plan(rng, n)))
             arrived.append(c)
             if rng.random() < 0.6:
@@ -159,14 +202,131 @@ def gen(rng, tier):
     return {"header": header, "ops": ops}
 
 
+# ------------------------------------------------------------------------------ interval-function objects
+
+PRESETS = {"exponential_backoff": (3, 100), "aggressive": (5, 50), "conservative": (2, 500)}   # max_attempts, initial ms
+HUGE = ["max", "max", str(2 ** 64 - 1), str(2 ** 63), str(2 ** 62 + 12345)]
+
+
+def _gen_interval(rng, us):
+    """`ifixed:<d>` / `iexp:<d>_<p>_<q>_<cap>` / `rand:<d>_<pct>_<p>_<q>_<cap>`; every third one with a huge initial
+    interval / maximum (`Duration::MAX`, 2^64-1, 2^63 of the unit) so that the capped exponential saturates"""
+    small = [0, 1, 500, 900, 999, 1000, 1001, 1500, 2500, rng.randint(1, 6000)] if us else [0, 1, 2, 3, 5, 10, rng.randint(1, 40)]
+    if rng.random() < 0.25:
+        # "park instead of retrying": the initial interval is Duration::MAX, so the capped exponential is saturated from
+        # the first retry on (2^64 s does not fit a Duration: the top clamp of every conversion is what is exercised)
+        mult = rng.choice(["-_-", "-_-", "2_1", "1_1", "3_2", "10_1"])
+        cap = rng.choice(["-", "-", "max", "max", str(rng.choice(small))])
+        r = rng.random()
+        if r < 0.1:
+            return "ifixed:max"
+        if r < 0.25:
+            return "iexp:max_%s_%s" % (mult, cap)
+        return "rand:max_%d_%s_%s" % (rng.choice([0, 0, 0, 1, 10, 50, 50, 90, 100]), mult, cap)
+    huge = rng.random() < 0.2
+    d = rng.choice(HUGE) if huge and rng.random() < 0.8 else str(rng.choice(small))
+    r = rng.random()
+    if r < 0.15:
+        return "ifixed:" + d
+    mult = rng.choice(["-", "-", "2_1", "3_2", "1_1", "5_4", "10_1", "4_1"])
+    cap = "-"
+    rc = rng.random()
+    if rc < 0.2:
+        cap = "max"
+    elif rc < 0.45 and d.isdigit() and int(d) < 10 ** 9:
+        cap = str(rng.choice([int(d) * 3, int(d) * 2 + 1, max(int(d) - 1, 0), int(d), int(d) * 10 + 7]))
+    elif rc < 0.5:
+        cap = rng.choice(HUGE)
+    tail = "_".join([mult if mult != "-" else "-_-", cap])
+    if r < 0.40:
+        return "iexp:%s_%s" % (d, tail)
+    pct = rng.choice([0, 0, 0, 10, 50, 50, 100, rng.randint(1, 99)])
+    return "rand:%s_%d_%s" % (d, pct, tail)
+
+
+def _ivl(word, us):
+    """-> None (an exact builder shortcut / table) or {"init","p","q","cap","pct"} in ns (pct None: not jittered;
+    ifixed: p = q = 1, no cap) — what the word asks the constructors and setters for"""
+    kind, _, arg = word.partition(":")
+    if kind == "ifixed":
+        return {"init": _ns(arg, us), "p": 1, "q": 1, "cap": None, "pct": None, "exact": True}
+    if kind not in ("iexp", "rand"):
+        return None
+    fs = arg.split("_")
+    o = 1 if kind == "rand" else 0
+
+    def f(i):
+        return fs[i] if i < len(fs) and fs[i] not in ("-", "") else None
+    p, q = 2, 1
+    if f(1 + o) is not None:
+        p = int(f(1 + o)) if f(1 + o).isdigit() else 0
+        q = int(f(2 + o)) if (f(2 + o) or "").isdigit() else 1
+    cap = _ns(f(3 + o), us) if f(3 + o) is not None else None
+    pct = None
+    if kind == "rand":
+        pct = min(100, int(f(1))) if (f(1) or "").isdigit() else 50
+    return {"init": _ns(fs[0] if fs else "0", us), "p": p, "q": q, "cap": cap, "pct": pct, "exact": False}
+
+
+def _envelope(iv, k):
+    """[lo, hi] in ns of what the object may answer for retry k: the capped exponential in exact arithmetic, within the
+    float tolerance (2^-40 relative + 1 ns); jitter: within the randomization factor of it, never above Duration::MAX"""
+    cap = DUR_MAX_NS if iv["cap"] is None else iv["cap"]
+    x = min(iv["init"] * iv["p"] ** k // max(iv["q"], 1) ** k, cap) if iv["q"] else 0
+    if iv.get("exact"):
+        return x, x, x
+    tol = x // 2 ** 40 + 1
+    if iv["pct"] is None:
+        return max(0, x - tol), min(x + tol, cap), x
+    f = iv["pct"]
+    return max(0, x * (100 - f) // 100 - tol - 1), min(x * (100 + f) // 100 + (2 * x) // 2 ** 40 + 2, DUR_MAX_NS), x
+
+
+def _interval_points(word, us):
+    """finite delays (µs) the advances are biased to: the ends and the middle of the envelopes of the first retries"""
+    iv = _ivl(word, us)
+    out = []
+    for k in range(3):
+        lo, hi, x = _envelope(iv, k)
+        out += [v // 1000 for v in (lo, x, hi) if v < 10 ** 15]
+    return out or [0]
+
+
+def _via_budget_builder(rng, budget):
+    """the same budget through RetryBudgetBuilder, some setters left at the builder's defaults (`-`)"""
+    kind, _, arg = budget.partition(":")
+    p = arg.split(":")
+    if kind == "bucket":
+        r = rng.random()
+        if r < 0.3:
+            return "bucket:-:%s:%d" % (p[1] if rng.random() < 0.6 else "-", rng.choice([0, 1, 10, 50]))
+        return "bucket:%s:%s:%d" % (p[0], p[1] if rng.random() < 0.7 else "-", rng.choice([0, 1, 10, 50]))
+    mn, mx = int(p[0]), int(p[1])
+    f = list(p)
+    if rng.random() < 0.3:
+        f[1] = "-"                     # max 1000
+    elif mx >= 10 and rng.random() < 0.5:
+        f[0] = "-"                     # min 10 (only with max >= 10: AimdBudget::new panics on min > max)
+    if f[1] != "-" and int(f[1]) < 10 and f[0] == "-":
+        f[0] = p[0]
+    for i in (2, 3, 4):
+        if rng.random() < 0.35:
+            f[i] = "-"
+    return "aimdb:" + ":".join(f)
+
+
 # ------------------------------------------------------------------------------ builder chains
 
-def parse_chain(text):
+def parse_chain(text, via=None):
     """the configuration a builder chain asks for: every setting is the one set last (`max_attempts` and
-    `max_attempts_fn` set the same setting, so do the three back-off setters); defaults: 3 attempts, every error
-    retried, exponential back-off from 100 ms, no budget. Stated from the builder's documentation, not from the Lean
+    `max_attempts_fn` set the same setting, so do the back-off setters); defaults: 3 attempts, every error
+    retried, exponential back-off from 100 ms, no budget; a preset (`via`) is the builder with `max_attempts` and
+    `exponential_backoff` already set (layer.rs). Stated from the builder's documentation, not from the Lean
     model. -> {"max", "dyn", "mask", "bo" (as the header word bo=), "budget" (as budget=), "order": [...] }"""
-    cfg = {"max": 3, "dyn": False, "mask": None, "bo": None, "budget": None, "order": []}
+    cfg = {"max": 3, "dyn": False, "mask": None, "bo": None, "budget": None, "order": [], "bo_ms": False, "name": None}
+    if via in PRESETS:
+        cfg["max"], cfg["bo"], cfg["bo_ms"] = PRESETS[via][0], "exp:%d" % PRESETS[via][1], True    # always milliseconds
+        cfg["order"] += ["max_attempts", "backoff"]
     for it in text.split(","):
         if not it.isascii():
             continue
@@ -177,10 +337,13 @@ def parse_chain(text):
         elif h1 == "p" and a1.isdigit():
             cfg["mask"] = int(a1)
             cfg["order"].append("retry_on")
-        elif h2 in ("bf", "be", "bt"):
-            cfg["bo"] = {"bf": "fixed", "be": "exp", "bt": "fn"}[h2] + ":" + a2.replace("/", ",")
+        elif h2 in ("bf", "be", "bt", "bi", "bx", "br"):
+            cfg["bo"] = {"bf": "fixed", "be": "exp", "bt": "fn", "bi": "ifixed", "bx": "iexp", "br": "rand"}[h2] + ":" + a2.replace("/", ",")
+            cfg["bo_ms"] = False
             cfg["order"].append("backoff")
-        elif h1 == "u" and a1.partition(":")[0] in ("bucket", "aimd"):
+        elif h1 == "n":
+            cfg["name"] = a1
+        elif h1 == "u" and a1.partition(":")[0] in ("bucket", "aimd", "aimdb"):
             cfg["budget"] = a1
             cfg["order"].append("budget")
     return cfg
@@ -195,6 +358,8 @@ def _bo_vals(bo, us):
         ds = [_us(arg, us)]
     elif kind == "exp":
         ds = [min(_us(arg, us) * 2 ** k, DUR_MAX_US) for k in range(4)]
+    elif kind in ("ifixed", "iexp", "rand"):
+        ds = _interval_points(bo, us)
     else:
         ds = [_us(x, us) for x in arg.split(",") if x]
     out = []
@@ -213,7 +378,7 @@ def _item(word):
         return "u" + v
     if k == "bo":
         kind, _, arg = v.partition(":")
-        return {"fixed": "bf", "exp": "be"}.get(kind, "bt") + arg.replace(",", "/")
+        return {"fixed": "bf", "exp": "be", "ifixed": "bi", "iexp": "bx", "rand": "br"}.get(kind, "bt") + arg.replace(",", "/")
     return None
 
 
@@ -226,12 +391,15 @@ def _noise(rng, us):
         return "f%d" % rng.choice([0, 1, 2, 3, 4, 5, 6])
     if r < 0.75:
         d = rng.choice([0, 1, 500, 999, 1001, 2250] if us else [0, 1, 2, 5, 10])
-        return rng.choice(["bf%d" % d, "be%d" % d, "bt%d/%d" % (d, rng.choice([0, 1, 3])), "bt"])
+        return rng.choice(["bf%d" % d, "be%d" % d, "bt%d/%d" % (d, rng.choice([0, 1, 3])), "bt", "bi%d" % d,
+                           "bx%d_3_2_-" % d, "br%d_%d" % (d, rng.choice([0, 50]))])
     if r < 0.88:
         return "p%d" % rng.choice([0, 2, 6, 8, 14])
-    if r < 0.97:
+    if r < 0.94:
         return rng.choice(["ubucket:%d:%d" % (m, i) for m in (0, 1, 3) for i in (0, 1, 4)]
-                          + ["uaimd:0:2:1:1:2", "uaimd:1:4:2:1:3"])
+                          + ["uaimd:0:2:1:1:2", "uaimd:1:4:2:1:3", "uaimdb:0:2:-:-:-", "ubucket:-:2:5", "uaimdb:-:-:-:-:-"])
+    if r < 0.97:
+        return "n" + rng.choice(["a", "retry-7", "x.y"])                 # .name(..): no setting the property depends on
     return rng.choice(["x9", "m", "unone:1", "mm3", "p-1"])          # not a setter: skipped
 
 
@@ -278,6 +446,24 @@ def _us(x, us):
     return n if us else n * 1000
 
 
+DUR_MAX_NS = (2 ** 64 - 1) * 10 ** 9 + 999999999
+
+
+def _ns(x, us):
+    """one configured duration -> ns"""
+    x = str(x)
+    if x == "max":
+        return DUR_MAX_NS
+    n = int(x) if x.isdigit() else 0
+    return n * (1000 if us else 1000000)
+
+
+def _fmt_ns(d):
+    if d >= DUR_MAX_NS:
+        return "Duration::MAX"
+    return "%d ns" % d if d % 1000 else _fmt_us(d // 1000)
+
+
 def _fmt_us(d):
     if d >= DUR_MAX_US:
         return "Duration::MAX"
@@ -293,14 +479,21 @@ def _cfg(case):
     us = kv.get("unit") == "us"
     budget_word = kv.get("budget")
     if "chain" in kv:            # the effective settings, computed here from the chain: the last setter of each wins
-        eff = parse_chain(kv["chain"])
+        eff = parse_chain(kv["chain"], kv.get("via"))
         mx, dyn, mask, bo, budget_word = eff["max"], eff["dyn"], eff["mask"], eff["bo"], eff["budget"]
-    # backoff(k): the configured delay before retry k+1, in MICROSECONDS
+        if eff["bo_ms"]:
+            us = False           # the back-off of a preset is in milliseconds whatever the unit of the case
+    # backoff(k): the configured delay before retry k+1, in MICROSECONDS — for an interval-function object with an
+    # envelope (float-computed / jittered) the LEAST value it may answer, rounded up to µs; `ivl`: the object itself
+    ivl = None
     if bo is None:
         backoff = lambda k: 100000 * 2 ** k
     else:
         kind, _, arg = bo.partition(":")
-        if kind == "fixed":
+        ivl = _ivl(bo, us)
+        if ivl is not None:
+            backoff = lambda k: -(-_envelope(ivl, k)[0] // 1000)
+        elif kind == "fixed":
             d = _us(arg, us)
             backoff = lambda k: d
         elif kind == "exp":
@@ -312,12 +505,24 @@ def _cfg(case):
     budget = None
     if budget_word is not None:
         kind, _, arg = budget_word.partition(":")
-        p = [int(x) for x in arg.split(":") if x]
+        raw = arg.split(":")
+
+        def fld(i, dflt, absent):
+            if i < len(raw) and raw[i] == "-":
+                return dflt                          # the budget builder's default
+            return int(raw[i]) if i < len(raw) and raw[i].isdigit() else absent
         if kind == "bucket":
-            budget = {"kind": "bucket", "max": p[0], "init": min(p[1], p[0]) if len(p) > 1 else p[0], "cost": 1, "amount": 1}   # the constructor clamps the initial balance to max_tokens
+            m = fld(0, 100, 1)
+            # the constructor clamps the initial balance to max_tokens
+            budget = {"kind": "bucket", "max": m, "init": min(fld(1, m, m), m), "cost": 1, "amount": 1}
         elif kind == "aimd":
+            p = [int(x) for x in arg.split(":") if x]
             budget = {"kind": "aimd", "min": p[0], "max": p[1], "dep": p[2], "wd": p[3], "q": p[4],
                       "init": p[1], "cost": p[3], "amount": p[2]}
+        elif kind == "aimdb":
+            mxb = fld(1, 1000, 1000)
+            budget = {"kind": "aimdb", "min": fld(0, 10, 10), "max": mxb, "dep": fld(2, 1, 1), "wd": fld(3, 1, 1),
+                      "q": fld(4, 2, 2), "init": mxb, "cost": fld(3, 1, 1), "amount": fld(2, 1, 1)}
     reqs = {}
     for o in case["ops"]:
         w = o.split()
@@ -332,7 +537,29 @@ def _cfg(case):
             ma = int(a["ma"]) if (dyn and "ma" in a) else mx
             reqs[w[1]] = {"max": ma, "plan": plan}
     retryable = (lambda kind: True) if mask is None else (lambda kind: kind < 64 and (mask >> kind) & 1 == 1)
-    return {"backoff": backoff, "budget": budget, "reqs": reqs, "retryable": retryable}
+    return {"backoff": backoff, "budget": budget, "reqs": reqs, "retryable": retryable, "ivl": ivl,
+            "ready": kv.get("ready", ""), "rec": int(kv.get("rec", "0")) if kv.get("rec", "0").isdigit() else 0}
+
+
+READY_ERR = "err:inner9:0"        # what a failed readiness poll of the scripted inner service carries
+
+
+def canon(lines):
+    """with a readiness script the inner service logs `inner_call c k tag=… ready=…`: the model claims the call, not the tag"""
+    return [re.sub(r" tag=\d+ ready=\d+$", "", l) for l in lines]
+
+
+def _observed(lines, meta):
+    """answers of the interval-function object: [(caller, retry index, ns, position in the log)] — the `#bo k ns` meta
+    line follows the `inner_done` of the attempt whose failure made the loop ask"""
+    out = []
+    for pos, m in meta:
+        ws = m.split()
+        if len(ws) == 3 and ws[0] == "#bo" and pos >= 1:
+            _, w = tparse(lines[pos - 1])
+            c = w[1] if len(w) > 1 and w[0] == "inner_done" else None
+            out.append((c, int(ws[1]), int(ws[2]), pos))
+    return out
 
 
 def _scripted(req, j):
@@ -399,6 +626,8 @@ def mon_stop(case, lines, meta):
                 elif ek is not None:
                     nxt = evs[j + 1] if j + 1 < len(evs) else None
                     stopped = nxt is not None and nxt[0] == "result" and nxt[3] == i + 1
+                    if stopped and nxt[2][2] == READY_ERR and "e" in cfg["ready"]:
+                        stopped = False        # not given up: the retry was due (zero back-off), its readiness poll failed
                     if stopped and ncalls < max(1, req["max"]) and cfg["budget"] is None:
                         return "request %s gave up after %d of %d attempts on a retryable error without a budget" % (c, ncalls, req["max"])
                     if not stopped and ncalls >= max(1, req["max"]):
@@ -426,6 +655,22 @@ def mon_result(case, lines, meta):
                 return "request %s: inner call after the result" % c
             serial = last[2][2]
             scripted = _scripted(req, len(before) - 1)
+            if w[2] == READY_ERR and scripted != "err9":
+                # the error of a failed readiness poll between attempts: the last thing the request observed of the inner
+                # service — legitimate only if the inner service's script has such an answer, after a retryable failure
+                # with attempts left (and, here, after the back-off: checked by c05-backoff-gap's twin below)
+                ek = _errkind(scripted)
+                if "e" not in cfg["ready"]:
+                    return "request %s: result %s although the inner service never fails a readiness poll" % (c, w[2])
+                if ek is None or not cfg["retryable"](ek) or len(before) >= max(1, req["max"]):
+                    return ("request %s: ended by a readiness error after attempt %d (scripted %s, max_attempts %d): no retry "
+                            "was due, so no readiness poll either" % (c, len(before) - 1, scripted, req["max"]))
+                done = [e for e in evs if e[0] == "inner_done" and e[3] < i]
+                d = cfg["backoff"](len(before) - 1)
+                if done and t * 1000 < done[-1][1] * 1000 + d:
+                    return "request %s: readiness error delivered at t=%d ms, before the back-off %s after the failure at t=%d ms ended" % (
+                        c, t, _fmt_us(d), done[-1][1])
+                continue
             if scripted == "ok":
                 want = "ok:%s" % serial
             elif scripted == "panic":
@@ -454,7 +699,10 @@ def _visited(case):
 def mon_backoff(case, lines, meta):
     """gap between the end of attempt k-1 and the start of attempt k >= backoff(k-1), compared in MICROSECONDS
     (instants of the log are whole ms, configured back-offs have µs resolution); equal to the first whole
-    ms at/after the deadline when polled on time; a late start is only legitimate if the waker fired at the deadline"""
+    ms at/after the deadline when polled on time; a late start is only legitimate if the waker fired at the deadline.
+    For an interval-function object (float-computed / jittered) `backoff(k-1)` is the least value its configuration
+    allows; what it actually answered (`#bo`) must lie in the envelope of the retry number the loop asked for — the
+    attempt that just failed —, and the retry must wait at least THAT."""
     cfg = _cfg(case)
     per = _per_caller(lines)
     visited = _visited(case)
@@ -463,6 +711,30 @@ def mon_backoff(case, lines, meta):
         ws = m.split()
         if ws and ws[0] == "#wake" and pos >= 0:
             wakes.setdefault(ws[1], []).append((pos, [int(x) for x in ws[2].split(",")]))
+    answered = {}
+    if cfg["ivl"] is not None:
+        ncalls = {}
+        pos_calls = []
+        for i, l in enumerate(lines):
+            _, w = tparse(l)
+            if w and w[0] == "inner_call":
+                pos_calls.append((i, w[1]))
+        for c, k, ns, pos in _observed(lines, meta):
+            if c is None:
+                return "the interval function was asked (retry %d) at a point that is not right after a failed attempt" % k
+            made = sum(1 for (i, cc) in pos_calls if cc == c and i < pos)
+            if k != made - 1:
+                return "request %s: after attempt %d failed the interval function was asked for retry index %d (the back-off before retry k+1 is the one configured for k = the attempt that failed)" % (c, made - 1, k)
+            lo, hi, x = _envelope(cfg["ivl"], k)
+            if not (lo <= ns <= hi):
+                iv = cfg["ivl"]
+                what = "initial %s x (%d/%d)^%d%s = %s" % (_fmt_ns(iv["init"]), iv["p"], iv["q"], k,
+                                                      "" if iv["cap"] is None else " capped at " + _fmt_ns(iv["cap"]), _fmt_ns(x))
+                if iv["pct"] is not None:
+                    what += ", randomization factor %d %%" % iv["pct"]
+                return "request %s: the configured back-off for retry %d is %s, i.e. within [%s, %s]; the interval function answered %s" % (
+                    c, k + 1, what, _fmt_ns(lo), _fmt_ns(hi), _fmt_ns(ns))
+            answered[(c, k)] = ns
     for c, evs in per.items():
         k = 0
         last_done = None
@@ -477,13 +749,28 @@ def mon_backoff(case, lines, meta):
                     if t * 1000 < last_done * 1000 + d:
                         return "request %s: retry %d started at t=%d ms, %d ms after attempt %d ended (t=%d ms); backoff(%d) = %s" % (
                             c, k, t, t - last_done, k - 1, last_done, k - 1, _fmt_us(d))
-                    due = next((x for x in visited if x * 1000 >= last_done * 1000 + d), None)
-                    if due is not None and t > due and d > 0:
+                    dns = answered.get((c, k - 1), d * 1000)
+                    if t * 10 ** 6 < last_done * 10 ** 6 + dns:
+                        return "request %s: retry %d started at t=%d ms, %d ms after attempt %d ended (t=%d ms); the interval function had answered %s" % (
+                            c, k, t, t - last_done, k - 1, last_done, _fmt_ns(dns))
+                    due = next((x for x in visited if x * 10 ** 6 >= last_done * 10 ** 6 + dns), None)
+                    if due is not None and t > due and dns > 0:
                         fired = any(due in ws for (pos, ws) in wakes.get(c, []) if pos <= i)
                         if not fired:
                             return "request %s: back-off before retry %d ended at t=%d but the future was not woken then (retry only at t=%d)" % (c, k, due, t)
                 k += 1
                 last_done = None
+    return None
+
+
+def mon_ready(case, lines, meta):
+    """with a scripted readiness (`ready=` / `rec=`) the inner service records on every call whether the instance it is
+    called on had answered `Ready(Ok)` since its previous call: the retry loop must poll its instance ready before every
+    further attempt (and stop when that poll fails)"""
+    for l in lines:
+        _, w = tparse(l)
+        if w and w[0] == "inner_call" and "ready=0" in w:
+            return "request %s: inner call %s was made on a service instance that had not answered ready since its previous call" % (w[1], w[2])
     return None
 
 
@@ -541,7 +828,7 @@ def mon_budget(case, lines, meta):
             if ncalls.get(c, 0) >= req["max"]:
                 continue                        # exhausted: the budget is not consulted
             nt, nw = tparse(lines[i + 1]) if i + 1 < len(lines) else (None, [])
-            stopped = nw[:2] == ["result", c]
+            stopped = nw[:2] == ["result", c] and not (nw[2] == READY_ERR and "e" in cfg["ready"])
             if stopped:
                 if bud.withdraw():
                     return "line %d: request %s was refused a retry although the budget could grant one" % (i, c)
@@ -570,6 +857,8 @@ def mon_budget(case, lines, meta):
                 if int(w[1][8:]) != bud.tokens:
                     return "line %d: balance() = %s, sequential budget has %d" % (i, w[1][8:], bud.tokens)
             elif w[1].startswith("limit="):
+                if cfg["budget"]["kind"] != "aimd":
+                    return "line %d: %s answered for a budget that has no current_max()" % (i, w[1])
                 if int(w[1][6:]) != bud.limit:
                     return "line %d: current_max() = %s, sequential budget has %d" % (i, w[1][6:], bud.limit)
     return None
@@ -616,7 +905,9 @@ def transitions(case, lines, meta=None):
                 tags.append("dropped-calling")
             elif kind == "result":
                 ek = _errkind(last_out or "")
-                if w[2] == "panic":
+                if w[2] == READY_ERR and "e" in cfg["ready"]:
+                    tags.append("stop-readiness-error")
+                elif w[2] == "panic":
                     tags.append("stop-panic")
                 elif w[2].startswith("ok:"):
                     tags.append("stop-ok-first" if n == 1 else "stop-ok-after-retry")
@@ -628,9 +919,70 @@ def transitions(case, lines, meta=None):
                         tags.append("stop-max-attempts-0")
                 else:
                     tags.append("stop-budget-refused")
-    chain = kvs(case["header"]).get("chain")
+    hkv = kvs(case["header"])
+    iv = cfg["ivl"]
+    if iv is not None:
+        tags.append("interval-object")
+        tags.append("bo-" + ("ifixed" if iv.get("exact") else "iexp" if iv["pct"] is None else "rand"))
+        for c, k, ns, pos in _observed(lines, meta or []):
+            lo, hi, x = _envelope(iv, k)
+            tags.append("interval-asked")
+            if iv["pct"] is not None:
+                tags.append("jitter-factor-0" if iv["pct"] == 0 else "jitter-sampled")
+                if x >= 2 ** 63 * 10 ** 9:
+                    tags.append("jitter-of-saturated-interval")
+                if hi >= DUR_MAX_NS and ns >= DUR_MAX_NS:
+                    tags.append("jitter-clamped-to-duration-max")
+            if not iv.get("exact") and x >= (DUR_MAX_NS if iv["cap"] is None else iv["cap"]) and x > 0:
+                tags.append("interval-at-cap")
+            if k > 0:
+                tags.append("interval-asked-retry>0")
+    if cfg["ready"] or cfg["rec"]:
+        tags.append("readiness-script")
+        if "p" in cfg["ready"]:
+            tags.append("readiness-script-with-pending")
+        if cfg["rec"]:
+            tags.append("readiness-recovery-time")
+            for c, evs in per.items():
+                last_done, last_call, n = None, None, 0
+                for (kind, t, w, i) in evs:
+                    if kind == "inner_done":
+                        last_done = t
+                    elif kind == "inner_call":
+                        if n > 0 and last_done is not None and last_call is not None:
+                            dl = last_done + -(-cfg["backoff"](n - 1) // 1000)
+                            if last_call + cfg["rec"] > dl and t >= last_call + cfg["rec"]:
+                                tags.append("retry-delayed-by-readiness")
+                        last_call = t
+                        n += 1
+    if "via" in hkv and "chain" in hkv:
+        tags.append("via-preset")
+    if "name" in hkv or (hkv.get("chain") and parse_chain(hkv["chain"])["name"] is not None):
+        tags.append("named")
+    bw = hkv.get("budget") or (parse_chain(hkv["chain"], hkv.get("via"))["budget"] if "chain" in hkv else None)
+    if bw:
+        if bw.startswith("aimdb"):
+            tags.append("budget-aimd-builder")
+        if bw.startswith("bucket") and (bw.count(":") >= 3 or "-" in bw):
+            tags.append("budget-bucket-builder-options")
+        if "-" in bw.partition(":")[2].split(":"):
+            tags.append("budget-builder-default-field")
+    svcs = set()
+    for o in case["ops"]:
+        if o.startswith("arrive "):
+            a = kvs(o)
+            svcs.add(a.get("svc", "0"))
+            if a.get("lclone") == "1":
+                tags.append("service-from-layer-clone")
+            if a.get("h") == "same":
+                tags.append("handle-reused")
+            elif a.get("h") == "clone":
+                tags.append("handle-cloned-after-call")
+    if len(svcs) > 1:
+        tags.append("several-services-one-layer")
+    chain = hkv.get("chain")
     if chain is not None:
-        order = parse_chain(chain)["order"]
+        order = parse_chain(chain, hkv.get("via"))["order"]
         tags.append("chain")
         if not order:
             tags.append("chain-empty")
@@ -671,7 +1023,13 @@ ALL = ["first-call", "retry-same-instant", "retry-after-sleep", "retry-exactly-a
        "chain", "chain-empty", "chain-repeated-max_attempts", "chain-repeated-max_attempts_fn", "chain-repeated-backoff",
        "chain-repeated-retry_on", "chain-repeated-budget", "chain-default-max_attempts",
        "chain-max_attempts_fn-then-max_attempts", "chain-max_attempts-then-max_attempts_fn",
-       "exhausted-under-fixed-limit-set-after-extractor", "chain-max_attempts-first", "chain-max_attempts-last"]
+       "exhausted-under-fixed-limit-set-after-extractor", "chain-max_attempts-first", "chain-max_attempts-last",
+       "interval-object", "bo-ifixed", "bo-iexp", "bo-rand", "interval-asked", "interval-asked-retry>0", "interval-at-cap",
+       "jitter-factor-0", "jitter-sampled", "jitter-of-saturated-interval", "jitter-clamped-to-duration-max",
+       "readiness-script", "readiness-script-with-pending", "readiness-recovery-time", "retry-delayed-by-readiness",
+       "stop-readiness-error", "via-preset", "named", "budget-aimd-builder", "budget-bucket-builder-options",
+       "budget-builder-default-field", "several-services-one-layer", "service-from-layer-clone", "handle-reused",
+       "handle-cloned-after-call"]
 
 LEVEL_NOTE = ("Trusted: Lean kernel; the transcription of the retry loop (lib.rs) and of the sequential semantics of "
               "TokenBucketBudget / AimdBudget / AimdController in TR.Model.Retry, validated only by the sampled correspondence "
@@ -681,7 +1039,13 @@ LEVEL_NOTE = ("Trusted: Lean kernel; the transcription of the retry loop (lib.rs
               "durations have microsecond resolution (zero and Duration::MAX included), instants are whole milliseconds; "
               "tokio's timer rounds a deadline UP to the millisecond (transcribed as ceilMs, probed through the real layer); "
               "a deadline std cannot represent is 'now + 30 years' in tokio and exact in the model (they agree on every "
-              "history shorter than that); ExponentialRandomBackoff (jitter) is C14's subject and not exercised here. "
+              "history shorter than that). Interval-function objects handed to .backoff(..) (FixedInterval, ExponentialBackoff "
+              "with any multiplier / maximum, ExponentialRandomBackoff) are observed choices: the value the real object answered "
+              "is fed to the model, which rejects it outside the envelope around the exact-arithmetic capped exponential "
+              "(2^-40 relative + 1 ns; jitter: within the randomization factor, never above Duration::MAX) and sleeps it; that "
+              "binary64 stays inside that envelope is sampled here and in C14, not proved. The readiness polls between attempts "
+              "are modelled for the scripted inner service (answers r/p/e, a pending answer followed at once by another poll; "
+              "a recovery time after each call); a service whose readiness pends without ever waking the task is outside. "
               "Wake-ups at the end of a back-off are observed by the harness's waker monitor, not modelled.")
 
 SPECS = {
@@ -691,9 +1055,10 @@ SPECS = {
         "module": "TR.Props.C05",
         "monitors": [("c05-attempt-bounds", mon_attempts), ("c05-stop-rule", mon_stop),
                      ("c05-returns-last-outcome", mon_result), ("c05-backoff-gap", mon_backoff),
-                     ("c05-budget-no-grant-no-retry", mon_budget)],
+                     ("c05-budget-no-grant-no-retry", mon_budget), ("c05-ready-before-every-attempt", mon_ready)],
         "transitions": transitions,
         "nontrivial": nontrivial,
+        "canon": canon,
         "all_transitions": ALL,
         "model_modules": ["TR.Model.Retry", "TR.Lemmas.Retry"],
         "lean_files": ["TR.Model.Retry", "TR.Lemmas.Retry"],
@@ -706,11 +1071,22 @@ SPECS = {
                 "polls/drops/settles interleaved, advances biased to the back-off values rounded down and up to ms, -1/0/+1, manual deposit/withdraw by another "
                 "budget holder, probes; half of the configurations written as the builder chain itself (chain=: the intended setters in a random "
                 "order plus 0..3 further setters of any setting anywhere, 30 % with max_attempts_fn and max_attempts both present in either order, "
-                "3 % empty, a few skipped non-setters); distinct = distinct implementation event log; non-trivial = at least one retry, a stop by "
+                "3 % empty, a few skipped non-setters, .name(..), 12 % of the chains started from a RetryLayer preset); 28 % of the back-offs are "
+                "interval-function objects built through their own constructors and setters (FixedInterval / ExponentialBackoff / "
+                "ExponentialRandomBackoff: factor 0..100 %, multiplier absent/1/1.25/1.5/2/4/10, maximum absent/below/above/Duration::MAX; a "
+                "quarter of them with the initial interval Duration::MAX, so that the capped exponential is saturated from the first retry); a "
+                "third of the budgets through RetryBudgetBuilder (token bucket with tokens_per_second, AIMD builder, fields left at the "
+                "builder's defaults); 14 % of the cases with a script of the inner service's answers to the readiness polls between attempts "
+                "(r/p/e) and / or a recovery time of 1..12 ms per instance; a quarter of the requests through service 0..2 built lazily from the one "
+                "layer value (some through a clone of the layer), a fifth on a kept handle (reused, or cloned after its calls); "
+                "distinct = distinct implementation event log; non-trivial = at least one retry, a stop by "
                 "predicate/exhaustion/budget/panic, or a cancelled inner call",
         "trusted": ["tokio sleep semantics and the sequential budget semantics as transcribed in TR.Model.Retry (sampled by the correspondence check)",
                     "harness: clock_gettime interposition, manual poller, scripted inner service", "python diff/monitors"],
         "assumptions": ["one poll of one call future is atomic (single-threaded runtime)",
+                        "a readiness error of the inner service between attempts ends the request whatever the predicate says (lib.rs: `poll_ready(..).await?`), "
+                        "and the budget token withdrawn for that retry is not refunded: modelled as the code does it; the property's quantifier "
+                        "ranges over call outcomes, not over readiness errors",
                         "each try_withdraw / deposit is one atomic step (their internal interleavings: C08)",
                         "usize/u64 modelled as unbounded Nat; back-off durations are whole microseconds, instants whole milliseconds "
                         "(the harness advances time in ms); virtual time stays below tokio's 30-year 'far future'"],
@@ -724,7 +1100,18 @@ SPECS = {
                       "the true grants and a false grant ends the request, and retries x cost + balance <= initial + deposits x amount for "
                       "the token bucket and the AIMD budget; the configuration a builder chain produces has, for each setting (max_attempts source, "
                       "back-off, predicate, budget), the value given by the LAST setter of that setting wherever the others stand, and the layer built with "
-                      "max_attempts(n) last — after any max_attempts_fn — invokes the inner service at most max(1,n) times per request. The model is tied to the real RetryLayer by line-for-line agreement of event logs.",
+                      "max_attempts(n) last — after any max_attempts_fn — invokes the inner service at most max(1,n) times per request. "
+                      "Back-off policies are an envelope [backoff k, backoff k + spread k] per retry number (spread 0 = exact; jittered / "
+                      "float-computed interval functions: the answer is an input of every poll, any value at all): the delay slept is always "
+                      "inside the envelope, an answer inside it is slept unchanged, and every waiting statement holds for the delay actually "
+                      "answered (interval_function_envelope: for ExponentialRandomBackoff the envelope is [d(1-f), d(1+f)] around the capped "
+                      "exponential d, capped at Duration::MAX, so a saturated interval is never slept as zero). Readiness between attempts: "
+                      "for every script of the inner service's answers and every recovery time, a pending readiness only delays the retry "
+                      "(no_retry_before_backoff), a readiness error ends the request with that error after the whole back-off and without a "
+                      "further call (readiness_error_is_the_last_outcome), which is impossible for a service that never errs "
+                      "(ready_service_never_unready). A poll, drop or arrival of one request leaves the record of every other request "
+                      "untouched (several services / handles / clones of one layer share the budget and nothing else). "
+                      "The model is tied to the real RetryLayer by line-for-line agreement of event logs.",
         "level_note": LEVEL_NOTE,
     },
 }
